@@ -116,7 +116,26 @@ fn observe(e: &Engine) -> Obs {
     }
 }
 
+/// The floating-point environment of the calling thread is part of its state: subnormal
+/// arithmetic and round-to-nearest must still work after a call into the library.
+fn fp_env_ok() -> bool {
+    use std::hint::black_box;
+    let sub = black_box(f64::MIN_POSITIVE) / black_box(4.0);
+    let sub_in = black_box(f64::from_bits(1)) * black_box(2.0);
+    let near = black_box(1.0f64) + black_box(f64::EPSILON / 2.0);
+    let up = black_box(1.0f64) + black_box(f64::EPSILON * 0.75);
+    sub > 0.0 && sub.to_bits() != 0 && sub_in.to_bits() == 2 && near == 1.0 && up == 1.0 + f64::EPSILON
+}
+
 fn run_job(e: &Engine, j: &Job) -> Result<Vec<f64>, String> {
+    let r = run_job_inner(e, j);
+    if !fp_env_ok() {
+        return Err("the call left the thread's floating-point environment changed (flush-to-zero / rounding mode)".into());
+    }
+    r
+}
+
+fn run_job_inner(e: &Engine, j: &Job) -> Result<Vec<f64>, String> {
     if j.chunk == 0 {
         return e.synthesize(j.labels.as_slice()).map_err(|e| e.to_string());
     }
